@@ -180,12 +180,24 @@ pub fn run(a: &Args) -> Report {
     let n = a.n(1500, 6000);
     let r4 = parallel(n, a.threads.min(1).max(1), |i, rep| client_codec_history(seed, i as u64, rep));
     rep.merge(r4);
+    // the same with two and three server sessions answering one client session
+    let r5 = parallel(n, a.threads.min(1).max(1), |i, rep| client_codec_history_n(seed, i as u64, 2 + (i % 2), rep));
+    rep.merge(r5);
     rep
 }
 
 /// Scripted reply ids through the real client `DatagramPacketCodec` (decode + replay filter).
 fn client_codec_history(seed: u64, i: u64, rep: &mut Report) {
-    let mut rng = Rng::derive(seed, 0xC11C, i);
+    client_codec_history_n(seed, i, 1, rep)
+}
+
+/// `n_sessions` server sessions answer the same client session (a server that restarted, or that rebuilt an expired
+/// association, answers under a new server session id and counts its packet ids from 1 again): each server session is
+/// a session of its own, the model keeps one accepted-set per server session id. With more than one session the ids are
+/// small and overlapping on purpose (1, 2, 3, ... in every session), and copies of earlier datagrams of EVERY session
+/// keep arriving between the fresh ones.
+fn client_codec_history_n(seed: u64, i: u64, n_sessions: usize, rep: &mut Report) {
+    let mut rng = Rng::derive(seed, 0xC11C + n_sessions as u64 - 1, i);
     let methods = [ss::Method::B3Aes128Gcm, ss::Method::B3Aes256Gcm, ss::Method::B3ChaCha20Poly1305, ss::Method::B3ChaCha8Poly1305];
     let m = methods[(i % 4) as usize];
     let cfg = Cfg::random(&mut rng, Proto::Ss(m), 0);
@@ -194,21 +206,28 @@ fn client_codec_history(seed: u64, i: u64, rep: &mut Report) {
     let mut client = real::ss_udp_client(&cfg);
     let keys = cfg.ref_client_keys();
     let (csid, _, _) = client.session_ids();
-    let ssid = rng.next_u64();
-    let mut model = Model::default();
-    let base = rng.below(1 << 30) + 9000;
-    let mut ids: Vec<u64> = Vec::new();
-    for k in 0..12u64 {
+    let ssids: Vec<u64> = (0..n_sessions).map(|_| rng.next_u64()).collect();
+    let mut models: Vec<Model> = (0..n_sessions).map(|_| Model::default()).collect();
+    let base = if n_sessions > 1 { 1 } else { rng.below(1 << 30) + 9000 };
+    // (server session, id)
+    let mut ids: Vec<(usize, u64)> = Vec::new();
+    let steps = if n_sessions > 1 { 24u64 } else { 12 };
+    for k in 0..steps {
+        // sessions follow one another (0 first, then 1, ...) with stragglers and copies of earlier ones in between
+        let current = ((k * n_sessions as u64) / steps) as usize;
+        let sess = if n_sessions > 1 && rng.chance(1, 4) { rng.below(current as u64 + 1) as usize } else { current };
+        let kk = k % (steps / n_sessions as u64).max(1);
         match rng.below(5) {
-            0 if !ids.is_empty() => ids.push(*rng.pick(&ids)), // duplicate
-            1 => ids.push(base + k * 3 - rng.below(3)),
-            2 => ids.push(base.saturating_sub(8129 + rng.below(100))), // stale
-            _ => ids.push(base + k * 3 + rng.below(3)),
+            0 if !ids.is_empty() => ids.push(*rng.pick(&ids)), // duplicate (of any session)
+            1 => ids.push((sess, base + kk * 3 - rng.below(3).min(base + kk * 3))),
+            2 if n_sessions == 1 => ids.push((sess, base.saturating_sub(8129 + rng.below(100)))), // stale
+            _ => ids.push((sess, base + kk * 3 + rng.below(3))),
         }
     }
     let mut dead = false;
     let mut history = Vec::new();
-    for (k, id) in ids.iter().enumerate() {
+    for (k, (sess, id)) in ids.iter().enumerate() {
+        let (ssid, model) = (ssids[*sess], &mut models[*sess]);
         let payload = rng.bytes(20);
         let from = refimpl::addr::Addr::V4(rng.arr(), 53);
         let p = ss::S22UdpPacket { session_id: ssid, packet_id: *id, type_byte: 1, timestamp: now, client_session_id: Some(csid), padding: vec![], addr: from.clone(), payload: payload.clone() };
@@ -218,7 +237,7 @@ fn client_codec_history(seed: u64, i: u64, rep: &mut Report) {
         let got = guarded(|| client.decode(&mut src));
 
         rep.mon("client_reply_decisions_compared", 1);
-        history.push(json!({"id": id.to_string(), "model": want, "codec": match &got { Ok(Some(_)) => "delivered", Ok(None) => "none", Err(_) => "error" }}));
+        history.push(json!({"server_session": sess, "id": id.to_string(), "model": want, "codec": match &got { Ok(Some(_)) => "delivered", Ok(None) => "none", Err(_) => "error" }}));
         match (&got, want) {
             (Ok(Some((pl, a))), true) => {
                 if *pl != payload || *a != from {
@@ -227,7 +246,8 @@ fn client_codec_history(seed: u64, i: u64, rep: &mut Report) {
                 }
             }
             (Ok(Some(_)), false) => {
-                rep.violation(format!("C11|client-codec|{}|delivers-refused-id", m.name()), "client delivers a reply whose packet id the model refuses (duplicate or stale)", json!({"seed": seed, "index": i, "history": history}));
+                let fam = if n_sessions > 1 { "client-codec/several-server-sessions" } else { "client-codec" };
+                rep.violation(format!("C11|{}|{}|delivers-refused-id", fam, m.name()), "client delivers a reply whose packet id the model refuses (duplicate or stale within its server session)", json!({"seed": seed, "index": i, "server_sessions": n_sessions, "history": history}));
                 return;
             }
             (Ok(None), false) => {}
@@ -236,13 +256,17 @@ fn client_codec_history(seed: u64, i: u64, rep: &mut Report) {
                 dead = true;
             }
             (_, true) => {
-                rep.violation(format!("C11|client-codec|{}|fresh-reply-not-delivered", m.name()), "a fresh in-window reply is not delivered", json!({"seed": seed, "index": i, "step": k, "history": history}));
+                let fam = if n_sessions > 1 { "client-codec/several-server-sessions" } else { "client-codec" };
+                rep.violation(format!("C11|{}|{}|fresh-reply-not-delivered", fam, m.name()), "a fresh in-window reply is not delivered", json!({"seed": seed, "index": i, "step": k, "server_sessions": n_sessions, "history": history}));
                 return;
             }
         }
     }
     rep.evaluations += 1;
-    rep.distinct.insert(0xC000_0000 + i);
+    rep.distinct.insert(0xC000_0000 + i + ((n_sessions as u64) << 24));
+    if n_sessions > 1 {
+        rep.mon("client_histories_with_several_server_sessions", 1);
+    }
     if dead {
         rep.violation(
             format!("C11|client-codec|{}|refusal-is-an-error-that-ends-the-reply-task", m.name()),
